@@ -29,7 +29,10 @@ def f01_zero_length():
 def f02_new_transfer_after_term():
     A, B, sa, sb = established()
     A.terminate(0)
-    A.send_bundle_data(b'late')
+    try:
+        A.send_bundle_data(b'late')
+    except RuntimeError:
+        pass  # refused at once (since fix 8886131): nothing can start
     n = sum(1 for m in _wire(sa, sb, A, B) if m == 'XFER_SEGMENT')
     if n:
         return 'a transfer was started after this side sent SESS_TERM ({} segment(s) on the wire)'.format(n)
